@@ -72,7 +72,23 @@ type slowLockFs struct {
 	failedAt atomic.Int64 // unix nanoseconds of the injected failure
 }
 
+// descriptor exhaustion lasts a moment: for 3 ms after the injected failure nothing can be opened on this filesystem
+func (s *slowLockFs) exhausted() bool {
+	at := s.failedAt.Load()
+	return at != 0 && time.Now().UnixNano()-at < int64(3*time.Millisecond)
+}
+
+func (s *slowLockFs) Open(name string) (afero.File, error) {
+	if s.exhausted() {
+		return nil, &os.PathError{Op: "open", Path: name, Err: syscall.EMFILE}
+	}
+	return s.Fs.Open(name)
+}
+
 func (s *slowLockFs) OpenFile(name string, flag int, perm os.FileMode) (afero.File, error) {
+	if s.exhausted() {
+		return nil, &os.PathError{Op: "open", Path: name, Err: syscall.EMFILE}
+	}
 	if strings.HasSuffix(name, ".lock") && flag&(os.O_WRONLY|os.O_RDWR|os.O_CREATE) != 0 {
 		time.Sleep(s.delay)
 		if n := atomic.AddInt64(&s.writes, 1); s.failAt > 0 && n == s.failAt {
@@ -371,7 +387,7 @@ func lockTimeMain(args []string) {
 		vfs := filesystem.NewVirtualFileSystem(ffs, filesystem.StandardFS, filesystem.IdentityPathConverterFunc).(*filesystem.VFS)
 		id := fmt.Sprintf("hiccup%d", atomic.AddInt64(&lockSeq, 1))
 		holder := filesystem.NewRemoteLockFile(vfs, id, tmp3)
-		caseTxt := "live hold on os, the 4th heart-beat write fails once (EMFILE)"
+		caseTxt := "live hold on os, the 4th heart-beat write fails once (EMFILE) and nothing can be opened for the next 3 ms"
 		if err := holder.TryLock(ctx); err != nil {
 			rep.Fail(hx.Failure{Kind: "harness-error", Key: "hiccup-acquire", Detail: err.Error()})
 		} else {
